@@ -8,6 +8,7 @@ import (
 	"encoding/hex"
 	"encoding/json"
 	"fmt"
+	"time"
 	"io"
 	"os"
 	"path"
@@ -32,6 +33,7 @@ type Entry struct {
 	Link  string `json:"link,omitempty"`
 	Sum   string `json:"sum,omitempty"`
 	RdLen int64  `json:"rdlen"` // bytes actually read back
+	Far   string `json:"far,omitempty"` // modification / access time in full when int64 nanoseconds since 1970 cannot hold them (before 1678, after 2261)
 }
 
 type Tree map[string]Entry
@@ -49,9 +51,16 @@ func infoToEntry(i os.FileInfo) Entry {
 		e.Kind = "f"
 		e.Size = i.Size()
 	}
+	const reach = 9_000_000_000 // seconds
+	if s := i.ModTime().Unix(); (s > reach || s < -reach) && !i.ModTime().IsZero() {
+		e.Far = "m" + i.ModTime().UTC().Format(time.RFC3339Nano)
+	}
 	if st, ok := i.Sys().(*sfs.Stat); ok && st != nil {
 		e.Uid, e.Gid = int(st.Uid), int(st.Gid)
 		e.Atime = st.Atim.Nano()
+		if s := int64(st.Atim.Sec); (s > reach || s < -reach) && s != -62135596800 {
+			e.Far += fmt.Sprintf(" a%d.%09d", s, int64(st.Atim.Nsec))
+		}
 	}
 	return e
 }
@@ -147,7 +156,7 @@ func DiffTrees(a, b Tree, an, bn string, attrs bool) []string {
 			ds = append(ds, fmt.Sprintf("differs:%s %s=%+v %s=%+v", k, an, v, bn, w))
 			continue
 		}
-		if attrs && (v.Perm != w.Perm || v.Uid != w.Uid || v.Gid != w.Gid || v.Mtime != w.Mtime || v.Atime != w.Atime) {
+		if attrs && (v.Perm != w.Perm || v.Uid != w.Uid || v.Gid != w.Gid || v.Mtime != w.Mtime || v.Atime != w.Atime || v.Far != w.Far) {
 			ds = append(ds, fmt.Sprintf("attrs:%s %s=%+v %s=%+v", k, an, v, bn, w))
 		}
 	}
